@@ -218,7 +218,9 @@ func c18op(c IClaims, k int) bool {
 
 func VerifC18frame() {
 	verifInstallStubs()
+	verifGenNilElems = ndParam("nilelems", 0) == 1 // list elements decoded from null
 	c, _, _ := verifGenClaims()
+	verifGenNilElems = false
 	pre := c18take(c)
 	preObs := obsOf(c)
 	k := ndParam("op", 0)
